@@ -354,7 +354,7 @@ STAGES = [
           strategy=lambda tier: strategy_case(tier),
           examples={
               "quick": 320,
-              "thorough": 4000
+              "thorough": 8000
           },
           fork=True)
 ]
